@@ -5,7 +5,7 @@ from ._spec_common import *
 
 PROPERTY = "C02"
 LEVEL = "proof"
-TARGETS = ['DeepCopy', 'MutateAttr', 'WithAttr', 'ResetAttr']
+TARGETS = ['DeepCopy', 'MutateAttr', 'WithAttr', 'ResetAttr', 'MutateValue', 'UpdateAttr', 'TransformAttr']
 FAMILY_FILTER = ['c02.', 'c01.identity', 'c05.others'] + STRUCTURAL
 ASSUMPTIONS = A_COMMON + [
     "protect_via_deepcopy is used by its callers through the contract ProtectCopy; that contract (copier clause) is discharged against "
